@@ -30,10 +30,10 @@ static void flushout(void){ if (OUTN){ fwrite(OUTB, 1, OUTN, stdout); fflush(std
 static const unsigned char *CUR_BASE; static const uint8_t **CUR_PP; static int CUR_OFF0;
 static PSTATE_T *ST;
 static void snap(void);
-static int NORM; static void snapn(void);
+static int NORM, NOOFF; static void snapn(void);
 static void hook_record(int idx, uint8_t inval){
   out8('H'); out8(idx); out8(inval);
-  out32(CUR_PP ? (int)(*CUR_PP - CUR_BASE) + CUR_OFF0 : -1);
+  out32(NOOFF ? 0 : (CUR_PP ? (int)(*CUR_PP - CUR_BASE) + CUR_OFF0 : -1));
   if (NORM) snapn(); else snap();
   if (FLUSH_EACH) flushout();
 }
@@ -41,7 +41,8 @@ static int inv(void);
 static void exhaust(int digest, int L, int nr, const unsigned char *reps, int do_end);
 static void witness(const unsigned char *str, int n, int do_end);
 /* ---- exhaustive chunk-schedule exploration inside C ---- */
-static long NFEED, NSCHED, NSTR, NDIFF, NINV;
+static long NFEED, NSCHED, NSTR, NDIFF, NINV; static unsigned GMASK;
+static int ptrs_null(void);
 static void run_one(const unsigned char *s, int n, unsigned mask, int do_end){
   shim_release(); memset(ST, 0, sizeof(PSTATE_T)); install_hooks();
   CUR_PP = NULL; int r = PSTART(ST); install_hooks(); out8('S'); out8(r);
@@ -76,12 +77,12 @@ static void run_one(const unsigned char *s, int n, unsigned mask, int do_end){
       }
       if (r == 0) break;
       if (r >= FIRST_YIELD){
-        out8('Y'); out8(r); out32(cur);
+        out8('Y'); out8(r); out32(NOOFF ? 0 : cur);
         if (++guard > 4 * (b - a) + 8){ out8('L'); term = 1; break; }
         /* the documented driver loop re-invokes feed after EVERY yield with the pointer left as-is, also when the chunk is used up */
         continue;
       }
-      out8('T'); out8(r); out32(cur); term = 1; break;
+      out8('T'); out8(r); out32(NOOFF ? 0 : cur); term = 1; break;
     }
     free(buf); a = b;
   }
@@ -89,6 +90,8 @@ static void run_one(const unsigned char *s, int n, unsigned mask, int do_end){
   if (!term && do_end){ CUR_PP = NULL; r = PEND(ST); out8('E'); out8(r); { int iv = inv(); if (iv){ out8('V'); out8(iv); NINV++; } } }
 #endif
   out8('N'); out32(0); snapn();
+  shim_free();                                /* the parser's own free function (when it has one) */
+  if (!ptrs_null()){ out8('V'); out8(205); NINV++; }
 }
 static unsigned long long fnv(const unsigned char *p, size_t n){ unsigned long long h = 1469598103934665603ULL; for (size_t i = 0; i < n; i++){ h ^= p[i]; h *= 1099511628211ULL; } return h; }
 static void exhaust(int digest, int L, int nr, const unsigned char *reps, int do_end){
@@ -104,7 +107,7 @@ static void exhaust(int digest, int L, int nr, const unsigned char *reps, int do
       for (int i = 0; i < n; i++) s[i] = reps[idx[i]];
       NSTR++;
       /* reference: one chunk */
-      OUTB = refb; OUTN = 0; OUTCAP = refcap; run_one(s, n, 0, do_end); refb = OUTB; refn = OUTN; refcap = OUTCAP; NSCHED++;
+      OUTB = refb; OUTN = 0; OUTCAP = refcap; run_one(s, n, digest ? GMASK : 0, do_end); refb = OUTB; refn = OUTN; refcap = OUTCAP; NSCHED++;
       if (digest){
         unsigned long long h = fnv(refb, refn);
         if (resn + 8 > rescap){ rescap = rescap * 2 + 4096; res = realloc(res, rescap); }
@@ -130,7 +133,7 @@ static void exhaust(int digest, int L, int nr, const unsigned char *reps, int do
       if (k < 0) break;
     }
   }
-  NORM = 0;
+  NORM = 0; NOOFF = 0;
   OUTB = save; OUTN = saven; OUTCAP = savecap;
   out8(digest ? 'G' : 'X'); out64(NSTR); out64(NSCHED); out64(NFEED); out64(NDIFF); out64(NINV);
   out32((int)resn); outb(res, resn);
@@ -195,6 +198,7 @@ int main(int argc, char **argv){
     case 'X': case 'G': {
       int L = rd8(), nr = rd8(); unsigned char reps[32]; for (int i = 0; i < nr; i++) reps[i] = rd8();
       int do_end = rd8();
+      GMASK = (do_end & 2) ? 0x7fffffffu : 0; NOOFF = (do_end & 4) != 0; do_end &= 1;
       exhaust(op == 'G', L, nr, reps, do_end);
     } break;
     case 'W': {
@@ -286,6 +290,12 @@ def gen_shim(acc, sentinels=None):
     for nm, val in (sentinels or {}).items():
         o.append("  if ((long long)ST->c.%s != %dLL) return %d;" % (nm, val, 100 + list(spec).index(nm)))
     o.append("  return 0; }")
+    o.append("static int ptrs_null(void){")
+    if dynmem and dyn:
+        for nm, out in spec.items():
+            if out.type == T.STR:
+                o.append("  if (ST->c.%s) return 0;" % nm)
+    o.append("  return 1; }")
     o.append("static void shim_set_int(unsigned i, long long v){ switch(i){")
     for i, (nm, out) in enumerate(spec.items()):
         if out.type in (T.INT, T.BOOL):
@@ -410,8 +420,9 @@ class CProg:
         data = bytes(data)[:30]
         return b"W" + bytes([len(data), 1 if do_end else 0]) + data
 
-    def op_exhaust(self, L, reps, do_end=False, digest=False):
-        return (b"G" if digest else b"X") + bytes([L, len(reps)]) + bytes(reps) + bytes([1 if do_end else 0])
+    def op_exhaust(self, L, reps, do_end=False, digest=False, bytewise=False, no_offsets=False):
+        """X: every string x every composition compared with the one-chunk run.  G (digest): one trace hash per string, fed in one chunk or byte-wise"""
+        return (b"G" if digest else b"X") + bytes([L, len(reps)]) + bytes(reps) + bytes([(1 if do_end else 0) | (2 if bytewise else 0) | (4 if no_offsets else 0)])
 
     def parse_trace(self, raw):
         """records of a chunk-independent trace produced by run_one (normalised snapshots)"""
